@@ -360,6 +360,21 @@ func (t *tr) block(b *ssa.BasicBlock, heaps map[string]string) {
 				t.oblige("safe", t.nameAt("nil", x.Pos(), pickAnyExpr), R, fmt.Sprintf("(not (= (lref %s) 0))", p), x.Pos())
 			}
 			t.store(heaps, p, x.Val.Type(), t.vals(x.Val))
+			if t.own != nil && t.parent == nil && len(t.own.GhostSets) > 0 {
+				if fn := storedFieldName(x); fn != "" {
+					for _, gs := range t.own.GhostSets {
+						if gs.Store == fn && gs.N == t.storeOrd[ins] {
+							idx := 0
+							for k, bi := range b.Instrs {
+								if bi == ins {
+									idx = k
+								}
+							}
+							t.applyGhostSet(gs, t.pointEnv(b, idx+1), R, heaps)
+						}
+					}
+				}
+			}
 		case *ssa.Slice:
 			t.slice(x, R)
 		case *ssa.MakeSlice:
@@ -413,6 +428,23 @@ func (t *tr) block(b *ssa.BasicBlock, heaps map[string]string) {
 			t.val[x] = t.vals(x.Tuple)[off : off+n]
 		case *ssa.Call:
 			t.call(x, x.Common(), R, heaps, false)
+			if t.own != nil && t.parent == nil && len(t.own.GhostSets) > 0 {
+				if _, isB := x.Common().Value.(*ssa.Builtin); !isB {
+					name := t.calleeName(x.Common())
+					for _, gs := range t.own.GhostSets {
+						if gs.Callee == "" || !gs.After || gs.N != t.callOrd[ins] || !(name == gs.Callee || strings.HasSuffix(name, "."+gs.Callee) || strings.HasSuffix(name, ")."+gs.Callee)) {
+							continue
+						}
+						idx := 0
+						for k, bi := range b.Instrs {
+							if bi == ins {
+								idx = k
+							}
+						}
+						t.applyGhostSet(gs, t.pointEnv(b, idx+1), R, heaps)
+					}
+				}
+			}
 		case *ssa.Defer:
 			name := t.deferFlagName(x)
 			t.setHeap(heaps, name, "true")
@@ -1180,6 +1212,61 @@ func (t *tr) ret(x *ssa.Return, b *ssa.BasicBlock, R string, heaps map[string]st
 	// ghost entries of objects this function allocated are defined here (specification-only state of a fresh object)
 	for _, gi := range t.own.GhostInit {
 		g := t.eng.specs.Ghosts[gi.Ghost]
+		if g != nil && len(g.Keys) == 2 && g.Keys[0] == "ref" && gi.Key2 != nil {
+			// entry form: ghostinit g(c, k) = v for a fresh object c
+			c := &evalCtx{t: t, env: env, cur: heaps, old: t.oldHeaps}
+			var key, key2, val string
+			func() {
+				defer func() {
+					if r := recover(); r != nil {
+						t.fatalf("ghostinit %s: %v", gi.Src, r)
+					}
+				}()
+				key = c.ghostKey("ref", c.eval(gi.Key))
+				key2 = c.ghostKey(g.Keys[1], c.eval(gi.Key2))
+				val = c.coerce(c.eval(gi.Val), g.Val)
+			}()
+			if key == "" {
+				continue
+			}
+			t.oblige("ensures", fmt.Sprintf("ghostinit/%s@return[%d]", gi.Ghost, idx), R, fmt.Sprintf("(or (= %s 0) (not (existed %s)))", key, key), x.Pos())
+			h := "G_" + gi.Ghost
+			t.setHeap(heaps, h, fmt.Sprintf("(ite (and %s (not (= %s 0))) (store %s %s (store (select %s %s) %s %s)) %s)", R, key, t.H(heaps, h), key, t.H(heaps, h), key, key2, val, t.H(heaps, h)))
+			continue
+		}
+		if g != nil && len(g.Keys) == 2 && g.Keys[0] == "ref" {
+			// row form: ghostinit g(c) = h(r) - every entry g(c, k) of the fresh object c is defined as h(r, k)
+			ce, ok := gi.Val.(*ast.CallExpr)
+			var src *GhostDecl
+			if ok && len(ce.Args) == 1 {
+				if id, ok := ce.Fun.(*ast.Ident); ok {
+					src = t.eng.specs.Ghosts[id.Name]
+				}
+			}
+			if src == nil || len(src.Keys) != 2 || src.Keys[0] != "ref" || src.Keys[1] != g.Keys[1] || src.Val != g.Val {
+				t.fatalf("ghostinit %s: row form needs `g(c) = h(r)` with two-key ghosts of the same shape", gi.Src)
+				continue
+			}
+			c := &evalCtx{t: t, env: env, cur: heaps, old: t.oldHeaps}
+			var key, skey string
+			func() {
+				defer func() {
+					if r := recover(); r != nil {
+						t.fatalf("ghostinit %s: %v", gi.Src, r)
+					}
+				}()
+				key = c.ghostKey("ref", c.eval(gi.Key))
+				skey = c.ghostKey("ref", c.eval(ce.Args[0]))
+			}()
+			if key == "" {
+				continue
+			}
+			t.oblige("ensures", fmt.Sprintf("ghostinit/%s@return[%d]", gi.Ghost, idx), R, fmt.Sprintf("(or (= %s 0) (not (existed %s)))", key, key), x.Pos())
+			h := "G_" + gi.Ghost
+			srcRow := fmt.Sprintf("(select %s %s)", t.H(heaps, "G_"+ce.Fun.(*ast.Ident).Name), skey)
+			t.setHeap(heaps, h, fmt.Sprintf("(ite (and %s (not (= %s 0))) (store %s %s %s) %s)", R, key, t.H(heaps, h), key, srcRow, t.H(heaps, h)))
+			continue
+		}
 		if g == nil || len(g.Keys) != 1 || g.Keys[0] != "ref" {
 			t.fatalf("ghostinit %s: needs a ghost with one ref key", gi.Ghost)
 			continue
@@ -1201,6 +1288,13 @@ func (t *tr) ret(x *ssa.Return, b *ssa.BasicBlock, R string, heaps map[string]st
 		t.oblige("ensures", fmt.Sprintf("ghostinit/%s@return[%d]", gi.Ghost, idx), R, fmt.Sprintf("(or (= %s 0) (not (existed %s)))", key, key), x.Pos())
 		h := "G_" + gi.Ghost
 		t.setHeap(heaps, h, fmt.Sprintf("(ite (and %s (not (= %s 0))) (store %s %s %s) %s)", R, key, t.H(heaps, h), key, val, t.H(heaps, h)))
+	}
+	if t.own.AbstractAs != "" {
+		if ty := t.eng.typeByName(t.own.AbstractAs, t.pkg); ty != nil {
+			env.abstract, env.abstractAs = true, ty
+		} else {
+			t.fatalf("abstractas: unknown type %s", t.own.AbstractAs)
+		}
 	}
 	for _, e := range t.own.Ensures {
 		term, err := t.evalGoal(e.Expr, env, heaps, t.oldHeaps)
